@@ -76,6 +76,7 @@ type FuncSpec struct {
 	Splits    []*Clause // callers fork on these pre-state conditions when using the contract
 	Unfolds   []*Clause // rec-function applications (entry state) whose defining equation is assumed
 	Fuel      int
+	Timeout   int // per-solver timeout (seconds) for this function's obligations, when larger than the tier's
 	Preserves map[string][]*Clause // function-typed parameter -> regions its calls are assumed to leave unchanged
 	CalleeReq map[string][]*Clause // function-typed parameter -> conditions proved at each call through it (arguments a0, a1, …)
 	IsLemma   bool
@@ -276,6 +277,10 @@ func (ss *SpecSet) LoadSpecFile(path, pkgPath string) error {
 				curLoop.Unfolds = append(curLoop.Unfolds, cl)
 			} else if cur != nil {
 				cur.Unfolds = append(cur.Unfolds, cl)
+			}
+		case "timeout":
+			if cur != nil {
+				fmt.Sscanf(rest, "%d", &cur.Timeout)
 			}
 		case "fuel":
 			if cur != nil {
